@@ -14,6 +14,16 @@ Ties between the Lean layer (Model/Lock.lean, Props/C15.lean, Props/C15Table.lea
   (P) PARKING  a thread is parked inside a critical section (inside a storage write of the event thread / inside a provider
                call of the sync thread); the other manager's do() (and an on-demand sync) running in a second thread must
                block on the lock until the first one leaves.
+  (W) WAITERS  an application thread calls each public API that takes the state lock (forget, smart_sync_*, smart_unsync_*,
+               smart_delete_path; also walk, busy) and is parked inside its critical section while the remote event thread and the
+               sync thread queue on the lock; then all proceed: every mutation in the waiters' sections must be owned w.r.t. the lock
+               object state.lock denotes AT THAT MOMENT.
+  (I) IDENTITY the theorem needs `state.lock` to denote ONE lock object for the life of the state.  Static: the extractor lists every
+               binding / deletion / setattr / __dict__ write / alias / copy of the lock attribute (Gen `lockBindings`; theorems
+               `lock_bindings_audited`, `lock_identity_stable`; never tolerated).  Dynamic: the lock is proxied when the state is
+               CONSTRUCTED (before a manager can cache it), its identity is compared at every probe and every acquisition; a change is
+               a violation by itself, and ownership is always tested against the current object (a thread owning only a replaced,
+               orphaned lock object is unowned).
   (R) THREADS  real threaded runs (event thread per side, sync thread, notification thread + application threads issuing
                user operations and smart-sync calls; sys.setswitchinterval(1e-5); yields injected into provider calls) over
                random histories of the reliable families; afterwards: no hard mutation without lock ownership except the
@@ -180,6 +190,7 @@ class LockProxy:
             if d == 1:
                 self._probe.sections[me] = self._probe.sections.get(me, 0) + 1
             self._probe.trace_event("A")
+            self._probe.acquired(self)
         return ok
 
     def release(self):
@@ -199,7 +210,13 @@ class LockProxy:
         self.release()
 
     def _is_owned(self):
-        return self._depth.get(threading.get_ident(), 0) > 0
+        if self._depth.get(threading.get_ident(), 0) > 0:
+            return True
+        f = getattr(self._real, "_is_owned", None)      # taken through an alias that bypasses the proxy
+        try:
+            return bool(f()) if f is not None else False
+        except Exception:  # noqa
+            return False
 
     def free_now(self):
         return not any(d > 0 for d in self._depth.values())
@@ -218,7 +235,11 @@ class Obs:
 
 class Probe:
     def __init__(self):
-        self.lock = None            # LockProxy of the engine under observation
+        self.lock = None            # LockProxy around the object `state.lock` denotes NOW
+        self.state = None           # the SyncState of the engine under observation
+        self.lock_objects = []      # id() of every lock object state.lock has denoted, in order (index 0 = at creation)
+        self.rebinds = []           # identity changes observed: dicts
+        self.identity_polls = 0
         self.obs = []
         self.trace = []             # (thread ident, act token, entry)
         self.tl = threading.local()
@@ -249,9 +270,68 @@ class Probe:
     def as_entry(self, name):
         return Probe._Entry(self, name)
 
+    # -- lock identity: `state.lock` must denote ONE lock object for the whole life of the state
+    def attach(self, state):
+        """called when a SyncState has been constructed: proxy its lock, remember the identity"""
+        real = state.__dict__.get("lock", None)
+        if real is None:
+            real = getattr(state, "lock", None)
+        if isinstance(real, LockProxy):
+            proxy = real
+        else:
+            proxy = LockProxy(real, self)
+            object.__setattr__(state, "lock", proxy)
+        self.state, self.lock = state, proxy
+        self.lock_objects = [id(proxy._real)]
+        self.rebinds = []
+
+    def current_lock(self):
+        """the proxy of the lock object that `state.lock` denotes at this instant (what the OTHER threads synchronise on).
+        A change of identity is recorded as a hard observation and the new object is proxied so that tracing goes on."""
+        st = self.state
+        if st is None:
+            return self.lock
+        self.identity_polls += 1
+        cur = st.__dict__.get("lock", None) if hasattr(st, "__dict__") else None
+        if cur is None:
+            cur = getattr(st, "lock", None)
+        if cur is self.lock:
+            return cur
+        old = self.lock
+        if isinstance(cur, LockProxy):
+            proxy = cur
+        else:
+            proxy = LockProxy(cur, self)
+            try:
+                object.__setattr__(st, "lock", proxy)
+            except Exception:  # noqa
+                pass
+        self.lock = proxy
+        self.lock_objects.append(id(proxy._real))
+        import traceback
+        stack = [("%s:%d %s" % (os.path.basename(f.filename), f.lineno, f.name)) for f in traceback.extract_stack()[-12:-1]
+                 if "c15_threads" not in f.filename][-6:]
+        info = {"from_object": len(self.lock_objects) - 2, "to_object": len(self.lock_objects) - 1, "thread": threading.current_thread().name,
+                "entry": getattr(self.tl, "entry", None), "detected_at": stack,
+                "old_lock_held_by_detecting_thread": bool(old is not None and old._is_owned())}
+        self.rebinds.append(info)
+        if self.enabled:
+            self.obs.append(Obs(info["entry"], "lock-rebound:state.lock now denotes lock object #%d, it denoted #%d at creation/before"
+                                % (info["to_object"], info["from_object"]), False, True, info["thread"], "entry", stack))
+        return proxy
+
+    def acquired(self, proxy):
+        """a thread has just obtained `proxy`: is that still the object state.lock denotes?"""
+        if self.state is None or not self.enabled:
+            return
+        cur = self.current_lock()
+        if cur is not proxy and proxy is not None:
+            self.obs.append(Obs(getattr(self.tl, "entry", None), "stale-lock:entered a critical section on a lock object that state.lock no "
+                                "longer denotes", False, True, threading.current_thread().name, "entry"))
+
     # -- recording
     def owned(self):
-        lk = self.lock
+        lk = self.current_lock()
         return bool(lk is not None and lk._is_owned())
 
     def trace_event(self, tok):
@@ -377,15 +457,29 @@ def install_probe(mutators):
         return wrapper
     PROBE.patch(classes["SyncState"], "storage_commit", make_commit)
 
-    # forget() replaces the containers: re-instrument afterwards
+    # forget() replaces the containers: re-instrument them afterwards (NOT the lock: its identity is polled)
     def make_forget(orig):
         def wrapper(self_):
             r = orig(self_)
-            instrument_state(self_)
+            instrument_containers(self_)
+            PROBE.current_lock()
             return r
         wrapper.__wrapped__ = orig
         return wrapper
     PROBE.patch(classes["SyncState"], "forget", make_forget)
+
+    # state creation: the lock is proxied and its identity recorded before any manager can cache it
+    def make_init(orig):
+        def wrapper(self_, *a, **kw):
+            orig(self_, *a, **kw)
+            if PROBE.state is not None and PROBE.state is not self_ and PROBE.enabled:
+                PROBE.obs.append(Obs(PROBE.entry(), "lock-rebound:a second SyncState (with its own lock) was created for a live engine", False, True,
+                                     threading.current_thread().name, "entry"))
+            PROBE.attach(self_)
+            instrument_containers(self_)
+        wrapper.__wrapped__ = orig
+        return wrapper
+    PROBE.patch(classes["SyncState"], "__init__", make_init)
 
     # atomic steps: one event application / one pick+sync / one on-demand sync = at most ONE outermost critical section
     for qual in ("EventManager._process_event", "SyncManager.do", "SmartCloudSync._smart_sync_ent"):
@@ -395,7 +489,7 @@ def install_probe(mutators):
             def wrapper(self_, *a, **kw):
                 me = threading.get_ident()
                 n0 = PROBE.sections.get(me, 0)
-                d0 = PROBE.lock._is_owned() if PROBE.lock is not None else False
+                d0 = PROBE.owned() if PROBE.lock is not None else False
                 try:
                     return orig(self_, *a, **kw)
                 finally:
@@ -420,11 +514,8 @@ def install_probe(mutators):
         PROBE.patch(classes[cname], attr, make_do)
 
 
-def instrument_state(state):
-    """probed containers + the lock proxy on one SyncState"""
-    if not isinstance(state.lock, LockProxy):
-        object.__setattr__(state, "lock", LockProxy(state.lock, PROBE))
-    PROBE.lock = state.lock
+def instrument_containers(state):
+    """probed containers on one SyncState"""
     object.__setattr__(state, "_changeset_storage", ProbedSet(state._changeset_storage, PROBE, "_changeset_storage", "changeset"))
     object.__setattr__(state, "_dirtyset", ProbedSet(state._dirtyset, PROBE, "_dirtyset", "dirtyset"))
     object.__setattr__(state, "_oids", tuple(ProbedDict(d, PROBE, "_oids[%d]" % i, "oids") for i, d in enumerate(state._oids)))
@@ -493,11 +584,14 @@ class ProbeWorld(World):
         enabled = PROBE.enabled
         PROBE.enabled = False
         PROBE.lock = None
+        PROBE.state = None
         try:
             cs = World.new_engine(self)
         finally:
             PROBE.enabled = enabled
-        instrument_state(cs.state)
+        if PROBE.state is not cs.state:          # the constructor hook did not fire (probe not installed yet)
+            PROBE.attach(cs.state)
+            instrument_containers(cs.state)
         return cs
 
     def tree(self, side, root=None, with_oid=False):
@@ -572,6 +666,14 @@ def parse_audited():
     for m in re.finditer(r'\("([^"]+)",\s*(\[[^\]]*\]|\w+),\s*(\[[^\]]*\]|\w+)\)', body):
         out[m.group(1)] = (val(m.group(2)), val(m.group(3)))
     return out
+
+
+def parse_audited_bindings():
+    """`auditedBindings` of Props/C15Table.lean (diagnostics only; the kernel compares the lists)"""
+    import re
+    src = open(os.path.join(LEAN, "Csverif", "Props", "C15Table.lean"), encoding="utf8").read()
+    m = re.search(r"def auditedBindings[^\n]*:=\s*\[(.*?)\]\n", src, flags=re.S)
+    return [tuple(t) for t in re.findall(r'\("([^"]*)",\s*"([^"]*)",\s*"([^"]*)"\)', m.group(1))] if m else []
 
 
 def table_diff(rows, audited):
@@ -909,6 +1011,92 @@ def parking_case(kind):
     return res
 
 
+# ---------------------------------------------------------------------------------------------------- (W) waiters
+
+LOCK_APIS = ["forget", "smart_sync_path", "smart_sync_oid", "smart_unsync_path", "smart_unsync_oid", "smart_delete_path", "walk", "busy"]
+
+
+def waiter_case(api, flavour="oid-oid", variant=0):
+    """An application thread calls a public API that takes the state lock and is parked INSIDE its critical section; the event
+    thread of the remote side and the sync thread then start a step and block on the lock; the application thread is released,
+    everybody proceeds.  Every mutation made in the waiters' critical sections must be owned with respect to the lock object
+    `state.lock` denotes at that moment (a waiter that wakes up owning a replaced, orphaned lock object is unowned)."""
+    w = ProbeWorld(flavour, smart=True, storage="sqlite" if variant % 2 else "mock")
+    cs = w.cs
+    PROBE.obs, PROBE.trace, PROBE.attempts = [], [], {}
+    errors, res = [], {"kind": "waiter/" + api, "api": api, "flavour": flavour}
+    try:
+        w.user(1, "create", "/remote/a", b"v1")
+        w.user(1, "create", "/remote/g", b"v2")
+        w.user(0, "create", "/local/c.txt", b"v3")
+        w.run_to_quiet()
+        with PROBE.as_entry("SmartCloudSync.smart_sync_path"):
+            cs.smart_sync_path("/local/a", LOCAL)
+        w.run_to_quiet()
+        w.user(1, "write", "/remote/a", b"v4")            # a pending remote event for the event thread
+        w.user(1, "create", "/remote/h", b"v5")
+        w.user(0, "write", "/local/c.txt", b"v6")
+        w.step("L")                                        # a pending change for the sync thread
+        w.clock.advance(1.0)
+        calls = {
+            "forget": ("CloudSync.forget", lambda: cs.forget()),
+            "walk": ("CloudSync.walk", lambda: cs.walk()),
+            "busy": ("CloudSync.busy", lambda: cs.busy),
+            "smart_sync_path": ("SmartCloudSync.smart_sync_path", lambda: cs.smart_sync_path("/local/g", LOCAL)),
+            "smart_sync_oid": ("SmartCloudSync.smart_sync_oid", lambda: cs.smart_sync_oid(oid_of(w, 1, "/remote/g"))),
+            "smart_unsync_path": ("SmartCloudSync.smart_unsync_path", lambda: cs.smart_unsync_path("/local/a", LOCAL)),
+            "smart_unsync_oid": ("SmartCloudSync.smart_unsync_oid", lambda: cs.smart_unsync_oid(oid_of(w, 1, "/remote/a"))),
+            "smart_delete_path": ("SmartCloudSync.smart_delete_path", lambda: cs.smart_delete_path(oid_of(w, 0, "/local/c.txt"), "/local/c.txt")),
+        }
+        entry, fn = calls[api]
+        parked, gate = threading.Event(), threading.Event()
+
+        def hook(qual):
+            if threading.current_thread().name == "APP" and not parked.is_set() and PROBE.owned():
+                res["app_parked_in"] = qual
+                parked.set()
+                gate.wait(20)
+        PROBE.park_hook = hook
+
+        def app():
+            with PROBE.as_entry(entry):
+                fn()
+        t_app = _runner("APP", app, errors)
+        t_app.start()
+        # an API that takes no lock (walk, busy) simply finishes: the waiters then run unhindered
+        t0 = _time.time()
+        while not parked.is_set() and t_app.is_alive() and _time.time() - t0 < 10:
+            _time.sleep(0.001)
+        res["parked"] = parked.is_set()
+        waiters = [_runner("W-event", lambda: cs.emgrs[1].do(), errors), _runner("W-sync", lambda: cs.smgr.do(), errors)]
+        for t in waiters:
+            t.start()
+        if parked.is_set():
+            end = _time.time() + 5
+            while _time.time() < end and any(t.is_alive() and not PROBE.attempts.get(t.ident) for t in waiters):
+                _time.sleep(0.002)
+            _time.sleep(0.03)
+            res["waiters_blocked"] = {t.name: t.is_alive() for t in waiters}
+            mark = len(PROBE.obs)
+            res["intruders"] = [o for o in PROBE.obs[mark:] if o.thread != "APP" and o.hard]
+        gate.set()
+        for t in [t_app] + waiters:
+            t.join(20)
+        res["hung"] = [t.name for t in [t_app] + waiters if t.is_alive()]
+        # a further round of steps on the (possibly new) lock object, from a third thread
+        t3 = _runner("W-late", lambda: (cs.emgrs[0].do(), cs.emgrs[1].do(), cs.smgr.do()), errors)
+        t3.start()
+        t3.join(20)
+        res["obs"], res["trace"] = list(PROBE.obs), list(PROBE.trace)
+        res["errors"] = errors
+        res["lock_objects"] = len(PROBE.lock_objects)
+        res["rebinds"] = list(PROBE.rebinds)
+    finally:
+        PROBE.park_hook = None
+        w.close()
+    return res
+
+
 # ---------------------------------------------------------------------------------------------------- (R) threaded runs
 
 FILE_KINDS = ["create", "write", "write", "delete", "create"]
@@ -1049,7 +1237,7 @@ def threaded_run(seed, idx, flavour, smart, production, nops, budget=8.0, replay
         stopper.join(25)
         out["stop_hung"] = stopper.is_alive()
         sys.setswitchinterval(old_sw)
-        out["lock_free_after_stop"] = cs.state.lock.free_now()
+        out["lock_free_after_stop"] = PROBE.current_lock().free_now()
         out["L"], out["R"] = w.tree(0), w.tree(1)
         out["ops"] = [list(map(str, o)) for r in [rec] + recs for o in r.ops]
         out["ops_side"] = [[tuple(o) for o in r.ops] for r in recs]
@@ -1103,13 +1291,16 @@ class Judge:
                 if fn == "None":
                     self.unattributed += 1
                 if o.entry in self.known and ((o.entry, fn) in self.audited_unlocked or o.entry in self.lockless) \
-                        and not o.func.startswith("section-split"):
+                        and not o.func.startswith(("section-split", "lock-rebound", "stale-lock")):
                     self.counts["hard_unowned_known"] += 1
                     self.confirmed.setdefault(o.entry, dict(ctx, function=o.func))
                 else:
                     kind = "one atomic step (event application / pick+sync of an entry / on-demand sync) released and re-took the state " \
                            "lock: its critical section is split" if o.func.startswith("section-split") else \
-                           "sync state mutated by a thread that does not own the state lock"
+                           "lock identity: state.lock was re-bound to another lock object during the life of the state (threads blocked on or " \
+                           "holding the old object no longer exclude the others)" if o.func.startswith("lock-rebound") else \
+                           "lock identity: a thread entered its critical section owning only a stale lock object" if o.func.startswith("stale-lock") else \
+                           "sync state mutated by a thread that does not own the lock object state.lock denotes at that moment"
                     if o.entry in self.fixed:
                         kind = "regression of fixed finding %s%s: %s" % (FINDING_PREFIX, o.entry, kind)
                     self.violations.append(dict(ctx, kind=kind, observation=o.brief()))
@@ -1143,6 +1334,10 @@ class Judge:
         return verdicts
 
 
+def j_all_obs(j):
+    return [f for (_e, f, _o) in j.pairs_seen]
+
+
 def scenario_ctx(sc, c):
     return {"scenario": sc.name, "script": sc.script[:c.step + 1], "entry_point": c.name, "exception": c.err}
 
@@ -1169,6 +1364,19 @@ def judge_parking(j, r):
     return "ok"
 
 
+def judge_waiter(j, r):
+    ctx = {"waiter_case": r["kind"], "flavour": r["flavour"], "application_thread_parked_in": r.get("app_parked_in"),
+           "waiters_blocked_while_parked": r.get("waiters_blocked"), "lock_objects_seen": r.get("lock_objects"), "rebinds": r.get("rebinds"),
+           "schedule": ["application thread APP calls %s and is parked inside its critical section" % r["api"],
+                        "W-event = remote EventManager.do() and W-sync = SyncManager.do() start and block on the lock",
+                        "APP released; all three proceed; then W-late runs one more L,R,S round"]}
+    j.observations(r.get("obs", []), ctx)
+    if r.get("hung"):
+        j.violations.append(dict(ctx, kind="threads did not finish after the application thread was released", hung=r["hung"]))
+    j.trace(r.get("trace", []), ctx, maxlen=10 ** 9)
+    return ctx
+
+
 def judge_threaded(j, r, idx):
     ctx = {"threaded_run": idx, "flavour": r["flavour"], "smart": r["smart"], "production_sleeps": r["production"], "storage": r["storage"],
            "aging": r["aging"], "user_ops": r.get("ops"), "smart_calls": r.get("smart_calls"),
@@ -1186,7 +1394,9 @@ def judge_threaded(j, r, idx):
 
 PART_A = ["CS.Lock.discipline_implies_serializable", "CS.Lock.discipline_implies_serializable_obs", "CS.Lock.access_only_by_holder",
           "CS.Lock.no_two_threads_in_section", "CS.Lock.section_atomic", "CS.Lock.serial_iff", "CS.Lock.okFrom_iff_firstBad",
-          "CS.Lock.racy_undisciplined", "CS.Lock.racy_not_serializable"]
+          "CS.Lock.racy_undisciplined", "CS.Lock.racy_not_serializable", "CS.LockId.serializable_of_stable_identity",
+          "CS.LockId.discipline_implies_serializable_stable_lock", "CS.LockId.rebindDemo_disciplined", "CS.LockId.rebindDemo_unstable",
+          "CS.LockId.rebind_breaks_exclusion"]
 
 
 def tolerable_row(d, j, mutators, defined, lockless, delegating=()):
@@ -1257,6 +1467,10 @@ def run(res, tier, seed, proof_broken, replay):
     ents, rows, mutators = gen_lock_sites.table()
     audited = parse_audited()
     diff = table_diff(rows, audited)
+    bindings = [tuple(b) for b in gen_lock_sites.lock_bindings()]
+    aud_bind = parse_audited_bindings()
+    bind_diff = [dict(site=list(b), now="present", audited="absent") for b in bindings if b not in aud_bind] + \
+                [dict(site=list(b), now="absent", audited="present") for b in aud_bind if b not in bindings]
     unlocked = {(e, q) for e, q, ok in rows if not ok}
     opens, fixed = load_known_findings(PID)
     known = {i[len(FINDING_PREFIX):]: what for i, what in opens.items() if i.startswith(FINDING_PREFIX)}
@@ -1308,6 +1522,16 @@ def run(res, tier, seed, proof_broken, replay):
                 hist["parking"][kind] = {"status": st, "blocked": r.get("blocked"), "attempted": r.get("attempted"),
                                          "t1_owned_when_parked": r.get("t1_owned_when_parked")}
         phase["parking_s"] = round(_time.time() - t_ph, 1)
+        t_ph = _time.time()
+        # ---- (W) waiters: every lock-taking public API vs. engine threads queued on the lock
+        hist["waiters"] = {}
+        for k, api in enumerate(LOCK_APIS):
+            for fl, v in ([("oid-oid", k)] if not thorough else [("oid-oid", 0), ("path-oidf", 1), ("oid-oid-ci", 0)]):
+                r = waiter_case(api, fl, v)
+                judge_waiter(j, r)
+                hist["waiters"]["%s/%s" % (api, fl)] = {"parked_in": r.get("app_parked_in"), "blocked": r.get("waiters_blocked"),
+                                                         "lock_objects": r.get("lock_objects")}
+        phase["waiters_s"] = round(_time.time() - t_ph, 1)
         t_ph = _time.time()
         # ---- (R) threaded runs
         n_thr = 10 if not thorough else 400
@@ -1382,7 +1606,12 @@ def run(res, tier, seed, proof_broken, replay):
         "unowned_reads_observed": j.counts["unowned_reads"], "container_mutations_outside_any_mutating_function": j.unattributed,
         "static_table": {"entry_points": len(ents), "rows": len(rows), "unlocked_rows": sum(1 for r in rows if not r[2]),
                          "mutating_functions": len(mutators), "diff_vs_audited": diff[:20],
-                         "unlocked_entry_points": static_unlocked_entries},
+                         "unlocked_entry_points": static_unlocked_entries, "lock_binding_sites": [list(b) for b in bindings],
+                         "lock_binding_diff_vs_audited": bind_diff},
+        "lock_identity": {"identity_checks": PROBE.identity_polls, "rule": "id(state.lock) recorded when the state is constructed and compared at every "
+                          "probe (mutation, read, lock acquisition); ownership is tested against the object state.lock denotes at that moment",
+                          "identity_changes_observed": sum(1 for o in j_all_obs(j) if o.startswith("lock-rebound")),
+                          "stale_lock_sections_observed": sum(1 for o in j_all_obs(j) if o.startswith("stale-lock"))},
         "static_rows_observed_dynamically": len({(e, q) for e, q, _ok in rows} & seen_pairs),
         "static_unlocked_rows_confirmed_dynamically": len({(e, f) for e, f, o in j.pairs_seen if not o} & unlocked),
         "entry_points_exercised": sorted(entry_names), "histogram": hist, "phase_seconds": phase, "convergence_lines": len(c01_lines),
@@ -1406,6 +1635,9 @@ def run(res, tier, seed, proof_broken, replay):
     broken = list(proof_broken)
     if diff:
         broken.append("lock-site table differs from the audited table (theorem CS.Lock.lock_sites_audited): %d rows, first %r" % (len(diff), diff[:3]))
+    if bind_diff:
+        broken.append("lock identity: the binding sites of the lock attribute differ from the audited list (theorems CS.Lock.lock_bindings_audited, "
+                      "lock_identity_stable): %r" % (bind_diff[:4],))
     if j.crosscheck:
         broken.append("static/dynamic cross-check: %r" % (j.crosscheck[0],))
     seen = set()
@@ -1416,11 +1648,11 @@ def run(res, tier, seed, proof_broken, replay):
         seen.add(key)
         if len(seen) > 4:
             break
-        v = dict(v, property=PID, broken=broken[:3], table_diff=diff[:10])
+        v = dict(v, property=PID, broken=broken[:3], table_diff=diff[:10], lock_binding_diff=bind_diff)
         res.violation(v)
     if broken and not j.violations:
         verdicts_d = [tolerable_row(d, j, mutators, defined, lockless, delegating) for d in diff]
-        drift_ok = bool(diff) and all(ok for ok, _why in verdicts_d) and not j.crosscheck
+        drift_ok = bool(diff) and all(ok for ok, _why in verdicts_d) and not j.crosscheck and not bind_diff   # binding sites: always strict
         only_table = False
         if drift_ok:
             # the table modules are property-local: when they do not build every theorem of the audit file is reported missing;
@@ -1438,7 +1670,7 @@ def run(res, tier, seed, proof_broken, replay):
                              % ", ".join("%d x %s" % (n, k) for k, n in sorted(kinds.items())))
         else:
             res.violation({"property": PID, "kind": "proof obligation / generated table / cross-check no longer checks; no unlocked mutation observed",
-                           "broken": broken, "table_diff": diff[:40], "crosscheck": j.crosscheck[:5],
+                           "broken": broken, "table_diff": diff[:40], "lock_binding_diff": bind_diff, "crosscheck": j.crosscheck[:5],
                            "rows_not_tolerable": [dict(d, why=w) for d, (ok, w) in zip(diff, verdicts_d) if not ok][:20]}, no_input=True)
 
 if __name__ == "__main__":
